@@ -91,4 +91,57 @@ def standin_mstep_monitor(tier, seed):
                 bound=dict(space="model kinds x iterations of a seeded fit", iterations=n_iter, exhaustive=False, seed=seed))
 
 
-STANDINS = [standin_mstep_monitor]
+def standin_mixture_monitor(tier, seed):
+    """the mixture model: after every real maximisation step (both phases) the cluster probabilities are the mean responsibilities
+    of the pre-step state and sum to one, and the cluster means of tau / xi / sources are the responsibility-weighted means of the
+    current latent values -- responsibilities recomputed here from the pre-step state's regularity terms."""
+    import leaspy.models  # noqa
+    from leaspy.models import model_factory, McmcSaemCompatibleModel
+    from leaspy.io.data import Data
+    violations, evals, distinct, samples = [], 0, set(), []
+    orig = McmcSaemCompatibleModel.update_parameters.__func__
+    n_iter = 14 if tier == "quick" else 40
+    log = []
+
+    def monitored(cls, state, sufficient_statistics, *, burn_in):
+        if "probs" not in state.dag:
+            return orig(cls, state, sufficient_statistics, burn_in=burn_in)
+        nll = tensor_value(state["nll_regul_ind_sum_ind"])
+        r = torch.softmax(torch.clamp(-nll, -100.0), dim=1).clone()
+        lat = {k: state[k].clone() for k in ("tau", "xi", "sources") if k in state.dag}
+        orig(cls, state, sufficient_statistics, burn_in=burn_in)
+        log.append(("probs", state["probs"].clone(), r.sum(dim=0) / r.shape[0]))
+        log.append(("sum of probs", state["probs"].sum().reshape(1), torch.ones(1)))
+        for k, z in lat.items():
+            if k == "sources":
+                want = (z.unsqueeze(-1) * r.unsqueeze(1)).sum(dim=0) / r.sum(dim=0)
+            else:
+                want = (r * z).sum(dim=0) / r.sum(dim=0)
+            log.append((f"{k}_mean", state[f"{k}_mean"].clone(), want.reshape(state[f"{k}_mean"].shape)))
+    McmcSaemCompatibleModel.update_parameters = classmethod(monitored)
+    try:
+        df = cohort(seed + 5, n_ind=12, n_ft=3, missing=0.2)
+        m = model_factory("mixture_logistic", n_clusters=2, source_dimension=2, dimension=3)
+        with quiet():
+            m.fit(Data.from_dataframe(df), "mcmc_saem", seed=seed, n_iter=n_iter, n_burn_in_iter=n_iter // 2, n_burn_in_iter_frac=None, progress_bar=False)
+    except Exception as e:
+        violations.append(dict(key=f"a monitored fit of the mixture model aborts: {type(e).__name__}: {str(e)[:100]}"))
+    finally:
+        McmcSaemCompatibleModel.update_parameters = classmethod(orig)
+    for p_, got, want in log:
+        evals += 1
+        distinct.add(p_)
+        if not torch.allclose(got.reshape(-1).double(), want.reshape(-1).double(), rtol=2e-4, atol=2e-6):
+            violations.append(dict(key=f"mixture model: after a maximisation step {p_} = {got.reshape(-1).tolist()} is not the closed form {want.reshape(-1).tolist()}"))
+            break
+    if not log and not violations:
+        violations.append(dict(key="mixture model: the maximisation step was never observed"))
+    uniq = {v["key"][:60]: v for v in violations}
+    return dict(evaluations=evals, distinct_nontrivial=len(distinct),
+                rule="one evaluation = one parameter of the mixture model after one real maximisation step compared with its closed form "
+                     "(responsibilities recomputed from the pre-step state)",
+                samples=[dict(checked=sorted(distinct), n_checks=len(log))], violations=list(uniq.values())[:60],
+                bound=dict(space="iterations of one seeded mixture fit (2 clusters, 2 sources, 3 features)", iterations=n_iter, exhaustive=False, seed=seed))
+
+
+STANDINS = [standin_mstep_monitor, standin_mixture_monitor]
